@@ -1,4 +1,5 @@
 Require Import ExtrOcamlBasic.
-From Eupsv Require Import Base.Base Model.Shell.
+From Eupsv Require Import Base.Base Model.Shell Model.ShellSession.
 Extraction "model.ml" keep_types emit emit_failed render protect new_after sh_lex sh_run sh_source
-  claim_env valid_names nodup_keys gone_ok quote_val needs_quote in_claim forget forced_ok.
+  claim_env valid_names nodup_keys gone_ok quote_val needs_quote in_claim forget forced_ok
+  front_end cli_stdout listing api_session session_in_claim session_keeps session_final sh_chain call_shell_env.
